@@ -281,3 +281,46 @@ func VerifC15_AckVsWriteNoDeadlock() {
 	vsym.Assert(atomic.LoadInt32(&adone) == 1, "an acknowledgement never returns while a client writes (lock-order deadlock)")
 	vsym.Reach("done")
 }
+
+// VerifC15_StatusVsWriteNoDeadlock: the calls through which a primary reports its topology and progress - the
+// replication manager's Status (the detailed per-replica report) and GetNodeInfo (what the node-information RPC
+// serves) - are polled while a client writes, with zero or one healthy replica attached and every log sync mode.
+// Both the write and the report return: reporting must not take the primary's locks and the log's in an order that
+// can meet the write path's order (log mutex, then the primary's lock in the sync notification).
+func VerifC15_StatusVsWriteNoDeadlock() {
+	cfg := config.NewDefaultConfig(vsym.Dir())
+	cfg.WALSyncMode = config.SyncMode(vsym.IntRange("sync", 0, 2))
+	sm, err := storage.NewManager(cfg, stats.NewAtomicCollector())
+	vsym.Assert(err == nil, "NewManager failed")
+	k := vsym.Bytes("k", 1)
+	vsym.Assert(sm.Put(k, vsym.Bytes("v", 1)) == nil, "first put failed")
+	p := c15Primary(sm)
+	if vsym.IntRange("replicas", 0, 1) == 1 {
+		p.registerReplicaSession(c15Session("r1", &fakeStream{}))
+	}
+	m := &Manager{config: &ManagerConfig{Enabled: true, Mode: ReplicationModePrimary, ListenAddr: "p:50052"}, primary: p, serviceStatus: true}
+	which := vsym.IntRange("report", 0, 1)
+	var wdone, sdone int32
+	var seq uint64
+	go func() {
+		sm.Put(k, vsym.Bytes("v2", 1))
+		atomic.StoreInt32(&wdone, 1)
+	}()
+	go func() {
+		if which == 0 {
+			st := m.Status()
+			if s, ok := st["current_wal_sequence"].(uint64); ok {
+				seq = s
+			}
+		} else {
+			_, _, _, seq, _ = m.GetNodeInfo()
+		}
+		atomic.StoreInt32(&sdone, 1)
+	}()
+	vsym.Quiesce()
+	vsym.Reach("probed")
+	vsym.Assert(atomic.LoadInt32(&wdone) == 1, "a client write never returns while the primary's status is being reported (lock-order deadlock)")
+	vsym.Assert(atomic.LoadInt32(&sdone) == 1, "the primary's status report never returns while a client writes (lock-order deadlock)")
+	vsym.Assert(seq <= 2, "the reported sequence is beyond the last write")
+	vsym.Reach("done")
+}
